@@ -144,6 +144,11 @@ def classify(I, verdict, exc):
         return None
     name = type(exc).__name__
     if name == "ValueNotAllowedInLevel":
+        if (exc.key in ("asym_transform_index_flag", "asym_transform_flag") and not exc.value
+                and not isinstance(exc.allowed_values, I.ct.AnyValue) and exc.allowed_values == I.ct.ValueSet()):
+            # decide_extended_transform_flag reads an EMPTY level entry as {False}; in a version-3 stream
+            # (fragments, HO transform, new presets) the flag is coded and the validator rejects it
+            return "empty-level-entry-read-as-false:" + str(exc.key)
         return PREFIX + str(exc.key)
     if name == "QuantisationMatrixValueNotAllowedInLevel":
         return PREFIX + "quant_matrix_values"
@@ -175,11 +180,14 @@ def observe(I, conf):
         kind, val = encode(I, cf, conf)
         if kind != "ok":
             return None, "%s %s" % (kind, val)
+        vcase = version_case(I, cf, val)   # before autofill mutates the sequence
         data = I.common.serialise([val])
         with recording(I, log):
             verdict, exc, _p, state = I.common.validate(data)
         if verdict != "accept":
             return None, "open table rejected: %s %s" % (verdict, str(exc)[:200])
+        if vcase is not None:
+            vcase = vcase % cz(int(state["major_version"]))
         qm = []
         if state.get("quant_matrix") and cf["quantization_matrix"] is not None:
             qm = sorted(set(int(v) for lv in cf["quantization_matrix"].values() for v in lv.values()))
@@ -189,7 +197,31 @@ def observe(I, conf):
     if qm:
         obs["quant_matrix_values"] = set(qm)
     names = [du["parse_info"]["parse_code"].name for du in val["data_units"]]
-    return {"obs": OrderedDict((k, sorted(v)) for k, v in obs.items()), "units": names}, None
+    return {"obs": OrderedDict((k, sorted(v)) for k, v in obs.items()), "units": names, "vcase": vcase}, None
+
+
+def version_case(I, cf, seq):
+    """Coq literal (with a %s hole for the observed major_version) for autofill_major_version."""
+    hdr, tp = None, None
+    for du in seq["data_units"]:
+        if hdr is None and "sequence_header" in du:
+            hdr = du["sequence_header"]
+        if tp is None:
+            if "picture_parse" in du:
+                tp = du["picture_parse"]["wavelet_transform"]["transform_parameters"]
+            elif "fragment_parse" in du and "transform_parameters" in du["fragment_parse"]:
+                tp = du["fragment_parse"]["transform_parameters"]
+    if hdr is None or tp is None:
+        return None
+    e = tp["extended_transform_parameters"]
+    try:
+        h = C15.c_header(hdr)
+    except C15.Unrepresentable:
+        return None
+    return "(%s, %s, %s, (%s, %s, %s, %s), %%s)" % (
+        cbool(cf["fragment_slice_count"] != 0), h, cz(int(tp["wavelet_index"])),
+        cbool(e["asym_transform_index_flag"]), copt(e.get("wavelet_index_ho"), lambda x: cz(int(x))),
+        cbool(e["asym_transform_flag"]), copt(e.get("dwt_depth_ho"), lambda x: cz(int(x))))
 
 
 PATTERNS = [
@@ -275,6 +307,8 @@ def gen_tables(I, rng, conf, ob, ntables):
     for name, k in cand[:max(4, ntables // 2)]:
         spec = dict(exact)
         spec[k] = others(obs[k]) if rng.random() < 0.7 else []
+        if k == "base_video_format":
+            spec[k] = [(obs[k][0] + rng.randint(1, 22)) % 23]
         if k in FLAG_KEYS and obs[k] in ([0], [1]):
             spec[k] = [1 - obs[k][0]]
             # let the encoder find another encoding: open the values that flag brings with it
@@ -343,6 +377,8 @@ def run_conf(args):
         res["skip"] = why
         return res
     res["units"] = ob["units"]
+    res["vcase"] = ob["vcase"]
+    res["hcases"] = []
     for name, spec, regex, rk in gen_tables(I, rng, conf, ob, ntables):
         try:
             r = run_table(I, conf, spec, regex)
@@ -355,6 +391,13 @@ def run_conf(args):
             res["etp"].append(etp_case(I, conf, spec))
         except Exception as e:
             res["etp"].append(None)
+        if len(res["hcases"]) < 3 and name in ("exact", "widen", "flags-forced", "preset-only", "base-formats") or name.startswith("restrict:custom_"):
+            try:
+                hc = header_case(I, conf, spec)
+                if hc is not None:
+                    res["hcases"].append(hc)
+            except C15.Unrepresentable:
+                pass
     return res
 
 
@@ -387,6 +430,37 @@ def etp_case(I, conf, spec):
         "; ".join("(%d, %s, %s)" % (C15.KEY_ID[fl], cbool(rq), copt(f, cbool)) for fl, rq, f in flags),
         "None" if etp is None else "(Some (%s, %s, %s, %s))" % (cbool(etp[0]), copt(etp[1], lambda x: cz(int(x))), cbool(etp[2]), copt(etp[3], lambda x: cz(int(x)))))
     return lit
+
+
+def header_case(I, conf, spec):
+    """Coq literal (table, case15): the sequence header enumeration under the synthetic table."""
+    cf = make_cf(I, conf)
+    table = build_table(I, spec)
+    with swapped_level(I, table, conf["level"], ".*"):
+        headers = list(I.esh.iter_sequence_headers(cf))
+        if len(headers) > 60:
+            return None
+        cv = I.cfm.codec_features_to_trivial_level_constraints(cf)
+        cands = [int(x) for x in I.ct.allowed_values_for(
+            I.lc.LEVEL_CONSTRAINTS, "base_video_format", cv,
+            I.lc.LEVEL_CONSTRAINT_ANY_VALUES["base_video_format"]).iter_values()]
+        rank = [int(x) for x in I.esh.rank_allowed_base_video_format_similarity(cf)]
+        hobs = []
+        for h in headers[:2] + headers[-1:]:
+            data = I.common.serialise([C15.header_stream(I, copy.deepcopy(h))])
+            verdict, exc, vp, state = C15.header_only(I, data)
+            if verdict != "accept":
+                if getattr(exc, "key", None) in ("major_version", "minor_version"):
+                    continue   # pinned versions: recorded by the oracle
+                raise C15.Unrepresentable("validator rejected a header under the synthetic table: %s" % verdict)
+            lcv = [(k, int(v)) for k, v in state["_level_constrained_values"].items() if k not in ("major_version", "minor_version")]
+            hobs.append("(%s, (%s, %s, %s))" % (C15.c_header(h), clist(C15.flat(vp)), cz(int(state["picture_coding_mode"])), C15.c_kvs(lcv)))
+    extra = [(k, int(v)) for k, v in cv.items() if k not in ("level", "profile", "picture_coding_mode")]
+    case = "(mkCase %s %s %s %s %s %s %s\n  [%s]\n  [%s])" % (
+        cz(int(cf["level"])), cz(int(cf["profile"])), cz(int(cf["picture_coding_mode"])), C15.c_kvs(extra),
+        clist(C15.flat(cf["video_parameters"])), clist(cands), clist(rank),
+        ";\n   ".join(C15.c_header(h) for h in headers), ";\n   ".join(hobs))
+    return "([%s], %s)" % (C15.c_column(I, table[0]), case)
 
 
 def small_level_confs(I, ctx):
@@ -485,6 +559,17 @@ def run(ctx):
     if bad:
         ctx.obligation("corr:decide_extended_transform_flag / make_extended_transform_parameters agree with the implementation", False,
                        "corr-shard", "differ on: %r" % [etp_cases[i][1] for i in bad[:3]])
+    vcases = [(r["vcase"], r["conf"]) for r in results if not r["skip"] and r.get("vcase")]
+    bad = ctx.coq_check_cases("version", ["Model.SeqHeader", "Model.LevelChoices", "Corr.C15", "Corr.C16"], "check16v", [c for c, _ in vcases], shard=200)
+    if bad:
+        ctx.obligation("corr:autofill_major_version agrees with the implementation", False, "corr-shard",
+                       "differ on: %r" % [vcases[i][1] for i in bad[:3]])
+    hcases = [(h, r["conf"]) for r in results if not r["skip"] for h in r.get("hcases", [])]
+    bad = ctx.coq_check_cases("hdr", ["Model.SeqHeader", "Corr.C15", "Corr.C16"], "check16h T15", [c for c, _ in hcases],
+                              shard=40, defs=C15.table_defs(I))
+    if bad:
+        ctx.obligation("corr:iter_sequence_headers under synthetic tables agrees with the implementation", False, "corr-shard",
+                       "differ on: %r" % [hcases[i][1] for i in bad[:3]])
     ctx.trusted.append("LEVEL_CONSTRAINTS / LEVEL_SEQUENCE_RESTRICTIONS are replaced in place for encoder and validator alike (as the test suite does)")
 
 
